@@ -2,10 +2,15 @@ import SeqIoModel.Proofs.FastaStreamInit
 /-!
 # FASTA stream theorem: `next()` calls of the buffered reader yield exactly what S prescribes
 
-`fasta_next_stream`: for every input, capacity ≥ 3, growth policy that never refuses, read
-script without failures and chunk limit, `k` consecutive `next()` calls of the concrete
-machine give S's records (head, sequence lines, line number, byte offset) in order, or S's
-`InvalidStart` error, followed by `None` forever.  No panic, `opFuel` suffices.
+`fasta_next_stream_polGrows`: for every input, capacity ≥ 3, growth policy that never refuses
+a request with a positive capacity (`PolGrows`, e.g. `StdPolicy`), read script without failures
+and chunk limit, `k` consecutive `next()` calls of the concrete machine give S's records (head,
+sequence lines, line number, byte offset) in order, or S's `InvalidStart` error, followed by
+`None` forever.  No panic, `opFuel` suffices.
+
+`fasta_next_stream_refusing`: with a policy that may refuse (`PolWfPos`) the same holds up to
+the first `BufferLimit`.  `next_growth_log`, `only_when_unfit`, `bufferLimit_iff_refused`,
+`fitting_never_grows`: bookkeeping of the policy requests.
 -/
 open SeqIo SeqIo.FillProofs SeqIo.Spec
 
@@ -50,6 +55,13 @@ theorem seqLines_shift (inp buf ext : List UInt8) (b : Nat) (hb : b ≤ inp.leng
 
 /-! ## the invariant between `next` calls -/
 
+/-- absolute offsets at which the records of S start -/
+inductive RecStart (inp : List UInt8) : Nat → Prop
+  | first {l : List UInt8} {ls : List (List UInt8)} {s ln : Nat} :
+      skipBlank (lines inp) 0 1 = (l :: ls, s, ln) → l.head? = some GT → RecStart inp s
+  | next {s : Nat} : RecStart inp s → (scan (inp.drop s) s []).1 = true →
+      RecStart inp (scan (inp.drop s) s []).2.1
+
 /-- `InvR inp r rest`: `r` is a state between `next` calls on input `inp`, and `rest` is what
 S still prescribes for the calls to come. -/
 inductive InvR (inp : List UInt8) : Reader → List Obs → Prop
@@ -58,11 +70,18 @@ inductive InvR (inp : List UInt8) : Reader → List Obs → Prop
       r.bp.start ≤ r.searchPos → r.searchPos ≤ r.br.buf.length →
       r.byte = r.bp.start + base r →
       (inp.drop (r.searchPos + base r)).head? = some GT →
+      RecStart inp (r.searchPos + base r) →
       InvR inp r (specFrom inp (r.searchPos + base r) (r.line + r.bp.seqPos.length))
   | finished (r : Reader) : Win inp r → r.state = .finished → InvR inp r []
 
-/-- states reachable by `next` calls -/
-def Inv (inp : List UInt8) (r : Reader) : Prop := ∃ rest, InvR inp r rest
+/-- states reachable by `next` calls before any `BufferLimit` error, for policies that may refuse
+(`PolWfPos`) -/
+def InvW (inp : List UInt8) (r : Reader) : Prop := ∃ rest, InvR inp r rest
+
+/-- states reachable by `next` calls with a policy that never refuses (`PolGrows`) -/
+def Inv (inp : List UInt8) (r : Reader) : Prop := InvW inp r ∧ PolGrows r.pol
+
+theorem Inv.weak {inp : List UInt8} {r : Reader} (h : Inv inp r) : InvW inp r := h.1
 
 theorem InvR.win {inp : List UInt8} {r : Reader} {rest : List Obs} (h : InvR inp r rest) :
     Win inp r := by
@@ -84,13 +103,12 @@ theorem scan_skip_gt (l : List UInt8) (s : Nat) (h : l.head? = some GT) :
     rw [scan.eq_3]
     simp [GT, LF]
 
-/-- from a record start: `nextCont` finds the record S prescribes -/
-theorem rec_step {inp : List UInt8} {r : Reader} {s ln fuel : Nat} (hw : Win inp r)
-    (he : Eof inp r) (hs : ScanSt inp r s) (hst : r.state = .parsing) (hbyte : r.byte = s)
-    (hline : r.line = ln) (hgt : (inp.drop s).head? = some GT) (hfuel : inp.length < fuel) :
-    ∃ r' o rest, nextCont fuel r = (r', .ok true) ∧ specFrom inp s ln = o :: rest ∧
-      observe r' (.ok true) = o ∧ InvR inp r' rest := by
-  obtain ⟨r', hnc, hw', he', hd, hl', hb', hst'⟩ := nextCont_spec hw he hs hst hfuel
+/-- a completely found record is the record S prescribes -/
+theorem rec_done_obs {inp : List UInt8} {r' : Reader} {s ln : Nat} (hw' : Win inp r')
+    (he' : Eof inp r') (hd : RecDone inp r' s) (hl' : r'.line = ln) (hb' : r'.byte = s)
+    (hst' : r'.state = .parsing ∨ r'.state = .finished)
+    (hgt : (inp.drop s).head? = some GT) (hrs : RecStart inp s) :
+    ∃ o rest, specFrom inp s ln = o :: rest ∧ observe r' (.ok true) = o ∧ InvR inp r' rest := by
   obtain ⟨H, SL, hH, hSL, hspec, hnext⟩ := rec_spec inp s ln hgt
   have hble := hw'.b.base_le
   have hbp : (⟨r'.bp.start + base r', r'.bp.seqPos.map (· + base r')⟩ : BufPos) =
@@ -111,9 +129,9 @@ theorem rec_step {inp : List UInt8} {r : Reader} {s ln fuel : Nat} (hw : Win inp
       cases h : r'.bp.seqPos with
       | nil => exact absurd h hne
       | cons _ _ => rfl
-    rw [this, hl', hb', hline, hbyte]
+    rw [this, hl', hb']
     rfl
-  refine ⟨r', _, _, hnc, hspec, ?_, ?_⟩
+  refine ⟨_, _, hspec, ?_, ?_⟩
   · simp only [observe, hhead, hseq, hpos]
   · have hlen : (finalPos (scan (inp.drop s) s [])).length = r'.bp.seqPos.length := by
       rw [← hd.fin, List.length_map]
@@ -129,14 +147,37 @@ theorem rec_step {inp : List UInt8} {r : Reader} {s ln fuel : Nat} (hw : Win inp
         rcases hst' with h | h
         · exact h
         · exact absurd h hnf
-      have := InvR.parsing r' hw' he' hpar hsl hsple (by rw [hb', hbyte, hd.start_eq])
-        (by rw [← hsp]; exact hnext hf)
-      rw [← hsp, hl', hline, ← hlen] at this
+      have := InvR.parsing r' hw' he' hpar hsl hsple (by rw [hb', hd.start_eq])
+        (by rw [← hsp]; exact hnext hf) (by rw [← hsp]; exact RecStart.next hrs hf)
+      rw [← hsp, hl', ← hlen] at this
       exact this
     · rw [if_neg hf]
       have hff : (scan (inp.drop s) s []).1 = false := by
         cases h : (scan (inp.drop s) s []).1 <;> simp_all
       exact InvR.finished r' hw' (hd.st.mpr hff)
+
+/-- the two possible outcomes of an operation that may ask the policy: `good` with a payload, or
+`BufferLimit` after a refusal -/
+def Refused (r : Reader) (res : Res Bool) (new : List (Nat × Option Nat)) : Prop :=
+  res = .err .bufferLimit ∧ (∃ pre c, new = pre ++ [(c, none)]) ∧
+    ∃ h c, 1 ≤ c ∧ r.pol.f (h ++ [c]) = none
+
+/-- from a record start: `nextCont` finds the record S prescribes, unless the policy refuses -/
+theorem rec_step {inp : List UInt8} {r : Reader} {s ln fuel : Nat} (hw : Win inp r)
+    (he : Eof inp r) (hs : ScanSt inp r s) (hst : r.state = .parsing) (hbyte : r.byte = s)
+    (hline : r.line = ln) (hgt : (inp.drop s).head? = some GT) (hrs : RecStart inp s)
+    (hfuel : inp.length < fuel) :
+    ∃ r' res new, nextCont fuel r = (r', res) ∧ Growth r r' new ∧
+      (∀ e ∈ new, e.1 < recExtent inp s + 1) ∧
+      ((res = .ok true ∧ (∀ e ∈ new, e.2 ≠ none) ∧
+          ∃ o rest, specFrom inp s ln = o :: rest ∧ observe r' res = o ∧ InvR inp r' rest) ∨
+       Refused r res new) := by
+  obtain ⟨r', new, hg, hun, hcase⟩ := nextCont_spec hw he hs hst hfuel
+  rcases hcase with ⟨hnc, hsome, hw', he', hd, hl', hb', hst'⟩ | ⟨hnc, hlast, href⟩
+  · obtain ⟨o, rest, hspec, hobs, hinv⟩ :=
+      rec_done_obs hw' he' hd (by rw [hl', hline]) (by rw [hb', hbyte]) hst' hgt hrs
+    exact ⟨r', .ok true, new, hnc, hg, hun, Or.inl ⟨rfl, hsome, o, rest, hspec, hobs, hinv⟩⟩
+  · exact ⟨r', _, new, hnc, hg, hun, Or.inr ⟨rfl, hlast, href⟩⟩
 
 theorem specObs_of_skip (inp : List UInt8) (s ln : Nat) (c : UInt8) (l : List UInt8)
     (ls : List (List UInt8))
@@ -196,33 +237,55 @@ theorem next_new_other (fuel : Nat) (r r1 : Reader) (ln pos : Nat) (c : UInt8) (
     next fuel r = ({ r1 with state := .finished }, .err (.invalidStart ln c)) := by
   simp only [next, h, init, hf, hc, if_false]
 
+/-- the regular outcome of a `next` call: the result is what S prescribes next (`None` once S's
+stream is exhausted), and the invariant holds again -/
+def Good (inp : List UInt8) (rest : List Obs) (r' : Reader) (res : Res Bool)
+    (new : List (Nat × Option Nat)) : Prop :=
+  ((∃ b, res = .ok b) ∨ (∃ ln c, res = .err (.invalidStart ln c))) ∧
+  (∀ e ∈ new, e.2 ≠ none) ∧
+  observe r' res = rest.headD .none ∧ InvR inp r' rest.tail
+
+/-- the unfitting record that caused the policy requests of a call -/
+def Unfit (inp : List UInt8) (new : List (Nat × Option Nat)) : Prop :=
+  new ≠ [] → ∃ s, RecStart inp s ∧ ∀ e ∈ new, e.1 < recExtent inp s + 1
+
+/-- complete description of one `next` call from a state satisfying the invariant -/
 theorem next_step {inp : List UInt8} {r : Reader} {rest : List Obs} {fuel : Nat}
     (h : InvR inp r rest) (hfuel : inp.length < fuel) :
-    ∃ r' res, next fuel r = (r', res) ∧
-      ((∃ b, res = .ok b) ∨ (∃ ln c, res = .err (.invalidStart ln c))) ∧
-      ((rest = [] ∧ observe r' res = .none ∧ InvR inp r' []) ∨
-       (∃ o rest', rest = o :: rest' ∧ observe r' res = o ∧ InvR inp r' rest')) := by
+    ∃ r' res new, next fuel r = (r', res) ∧ Growth r r' new ∧ Unfit inp new ∧
+      (Good inp rest r' res new ∨ Refused r res new) := by
+  have hnil : ∀ e ∈ ([] : List (Nat × Option Nat)), e.2 ≠ none := by intro e he; cases he
   cases h with
   | finished hw hst =>
-    exact ⟨r, .ok false, next_finished fuel r hst, Or.inl ⟨_, rfl⟩,
-      Or.inl ⟨rfl, rfl, InvR.finished r hw hst⟩⟩
-  | parsing hw he hst hsl hsple hbyte hgt =>
+    exact ⟨r, .ok false, [], next_finished fuel r hst, Growth.same rfl rfl rfl,
+      (fun h => absurd rfl h), Or.inl ⟨Or.inl ⟨_, rfl⟩, hnil, rfl, InvR.finished r hw hst⟩⟩
+  | parsing hw he hst hsl hsple hbyte hgt hrs =>
     rw [next_parsing fuel r hst hsl]
     have hs1 : ScanSt inp (incRec r) (r.searchPos + base r) :=
       ⟨rfl, Nat.le_refl _, hsple, (by intro p hp; cases hp), rfl⟩
-    obtain ⟨r', o, rest', hnc, hspec, hobs, hinv⟩ :=
+    obtain ⟨r', res, new, hnc, hg, hun, hcase⟩ :=
       rec_step (r := incRec r) (ln := r.line + r.bp.seqPos.length) ⟨hw.b, hw.pol⟩ he hs1 hst
-        (by show r.byte + (r.searchPos - r.bp.start) = r.searchPos + base r; omega) rfl hgt hfuel
-    exact ⟨r', .ok true, hnc, Or.inl ⟨_, rfl⟩, Or.inr ⟨o, rest', hspec, hobs, hinv⟩⟩
+        (by show r.byte + (r.searchPos - r.bp.start) = r.searchPos + base r; omega) rfl hgt hrs hfuel
+    refine ⟨r', res, new, hnc, ⟨hg.log, hg.polf, hg.chain⟩, fun _ => ⟨_, hrs, hun⟩, ?_⟩
+    rcases hcase with ⟨hres, hsome, o, rest', hspec, hobs, hinv⟩ | href
+    · left
+      refine ⟨Or.inl ⟨_, hres⟩, hsome, ?_, ?_⟩
+      · rw [hspec]; exact hobs
+      · rw [hspec]; exact hinv
+    · exact Or.inr href
   | new hfb hst hsq =>
     have hcl := hfb.win.b.cur_le
-    obtain ⟨r1, res, hfirst, hw1, hbp1, hsp1, hst1, hpost⟩ := firstByte_spec fuel r hfb (by omega)
+    obtain ⟨r1, res, hfirst, hw1, hbp1, hsp1, hst1, hlog1, hpol1, hcap1, hpost⟩ :=
+      firstByte_spec fuel r hfb (by omega)
     cases res with
     | none =>
       rw [next_new_none fuel r r1 hst hfirst]
-      refine ⟨{ r1 with state := .finished }, .ok false, rfl, Or.inl ⟨_, rfl⟩, Or.inl ⟨?_, rfl, ?_⟩⟩
-      · exact specObs_of_skip_nil inp hpost
-      · exact InvR.finished _ ⟨hw1.b, hw1.pol⟩ rfl
+      refine ⟨{ r1 with state := .finished }, .ok false, [], rfl,
+        Growth.same hlog1 (by show r1.pol.f = r.pol.f; rw [hpol1]) hcap1, (fun h => absurd rfl h),
+        Or.inl ⟨Or.inl ⟨_, rfl⟩, hnil, ?_, ?_⟩⟩
+      · rw [specObs_of_skip_nil inp hpost]; rfl
+      · rw [specObs_of_skip_nil inp hpost]
+        exact InvR.finished _ ⟨hw1.b, hw1.pol⟩ rfl
     | some x =>
       obtain ⟨ln, pos, c⟩ := x
       obtain ⟨he1, hbyte1, hpos, hhead, hskip, l, ls, hl, hc⟩ := hpost
@@ -231,6 +294,7 @@ theorem next_step {inp : List UInt8} {r : Reader} {rest : List Obs} {fuel : Nat}
       · subst hgt
         rw [if_pos rfl] at hso
         rw [next_new_gt fuel r r1 ln pos hst hfirst]
+        have hrs : RecStart inp (pos + base r1) := RecStart.first (by rw [hskip, hl]) hc
         have hs2 : ScanSt inp (initRec r1 ln pos) (pos + base r1) := by
           refine ⟨rfl, Nat.le_succ _, hpos, ?_, ?_⟩
           · intro p hp
@@ -242,136 +306,176 @@ theorem next_step {inp : List UInt8} {r : Reader} {rest : List Obs} {fuel : Nat}
             rw [hbp1, hsq, List.map_nil, ← scan_skip_gt _ _ hhead, List.drop_drop]
             have e : pos + base r1 + 1 = pos + 1 + base r1 := by omega
             rw [e]
-        obtain ⟨r', o, rest', hnc, hspec, hobs, hinv⟩ :=
+        obtain ⟨r', res, new, hnc, hg, hun, hcase⟩ :=
           rec_step (r := initRec r1 ln pos) (ln := ln) ⟨hw1.b, hw1.pol⟩ he1 hs2 rfl
-            (by show r1.byte + pos = pos + base r1; omega) rfl hhead hfuel
-        refine ⟨r', .ok true, hnc, Or.inl ⟨_, rfl⟩, Or.inr ⟨o, rest', ?_, hobs, hinv⟩⟩
-        rw [hso, hspec]
+            (by show r1.byte + pos = pos + base r1; omega) rfl hhead hrs hfuel
+        have hg' : Growth r r' new := by
+          refine ⟨?_, ?_, ?_⟩
+          · rw [hg.log]; show r1.log ++ new = _; rw [hlog1]
+          · rw [hg.polf]; show r1.pol.f = _; rw [hpol1]
+          · have := hg.chain
+            rw [← hcap1]; exact this
+        refine ⟨r', res, new, hnc, hg', fun _ => ⟨_, hrs, hun⟩, ?_⟩
+        rcases hcase with ⟨hres, hsome, o, rest', hspec, hobs, hinv⟩ | ⟨hres, hlast, hh, hc', hc1, hrf⟩
+        · left
+          refine ⟨Or.inl ⟨_, hres⟩, hsome, ?_, ?_⟩
+          · rw [hso, hspec]; exact hobs
+          · rw [hso, hspec]; exact hinv
+        · right
+          refine ⟨hres, hlast, hh, hc', hc1, ?_⟩
+          rw [← hpol1]; exact hrf
       · rw [if_neg hgt] at hso
         rw [next_new_other fuel r r1 ln pos c hst hgt hfirst]
-        exact ⟨{ r1 with state := .finished }, .err (.invalidStart ln c), rfl, Or.inr ⟨_, _, rfl⟩,
-          Or.inr ⟨_, [], hso, rfl, InvR.finished _ ⟨hw1.b, hw1.pol⟩ rfl⟩⟩
+        refine ⟨{ r1 with state := .finished }, .err (.invalidStart ln c), [], rfl,
+          Growth.same hlog1 (by show r1.pol.f = r.pol.f; rw [hpol1]) hcap1, (fun h => absurd rfl h),
+          Or.inl ⟨Or.inr ⟨_, _, rfl⟩, hnil, ?_, ?_⟩⟩
+        · rw [hso]; rfl
+        · rw [hso]; exact InvR.finished _ ⟨hw1.b, hw1.pol⟩ rfl
+
+theorem Refused.not_grows {r : Reader} {res : Res Bool} {new : List (Nat × Option Nat)}
+    (h : Refused r res new) : ¬ PolGrows r.pol := by
+  obtain ⟨_, _, hist, c, hc, hf⟩ := h
+  intro hg
+  obtain ⟨n, hn, _⟩ := hg hist c hc
+  rw [hf] at hn
+  cases hn
+
+theorem Good.not_refused {inp : List UInt8} {rest : List Obs} {r r' : Reader} {res : Res Bool}
+    {new : List (Nat × Option Nat)} (h : Good inp rest r' res new) : ¬ Refused r res new := by
+  intro ⟨hres, _, _⟩
+  rcases h.1 with ⟨b, hb⟩ | ⟨ln, c, hc⟩
+  · rw [hb] at hres; cases hres
+  · rw [hc] at hres; cases hres
 
 /-! ## M2: the invariant is preserved; no panic; the fuel suffices -/
 
 theorem opFuel_gt (n m : Nat) : n < opFuel n m := by
   unfold opFuel; omega
 
+/-- the only results of `next` from a state satisfying the (weak) invariant: `Some(Ok(record))`,
+`None`, `Some(Err(InvalidStart))`, or `Some(Err(BufferLimit))` -/
+theorem invW_next_result {inp : List UInt8} {r : Reader} {fuel : Nat} (h : InvW inp r)
+    (hfuel : inp.length < fuel) :
+    (∃ b, (next fuel r).2 = .ok b) ∨ (∃ ln c, (next fuel r).2 = .err (.invalidStart ln c)) ∨
+      (next fuel r).2 = .err .bufferLimit := by
+  obtain ⟨rest, h⟩ := h
+  obtain ⟨r', res, new, hn, _, _, hcase⟩ := next_step h hfuel
+  rw [hn]
+  rcases hcase with hgood | href
+  · rcases hgood.1 with h | h
+    · exact Or.inl h
+    · exact Or.inr (Or.inl h)
+  · exact Or.inr (Or.inr href.1)
+
+theorem invW_no_panic {inp : List UInt8} {r : Reader} {fuel : Nat} (h : InvW inp r)
+    (hfuel : inp.length < fuel) : (next fuel r).2 ≠ .panic := by
+  rcases invW_next_result h hfuel with ⟨b, hb⟩ | ⟨ln, c, hc⟩ | hc
+  · rw [hb]; intro h'; cases h'
+  · rw [hc]; intro h'; cases h'
+  · rw [hc]; intro h'; cases h'
+
+theorem invW_fuel_enough {inp : List UInt8} {r : Reader} {fuel : Nat} (h : InvW inp r)
+    (hfuel : inp.length < fuel) : (next fuel r).2 ≠ .fuel := by
+  rcases invW_next_result h hfuel with ⟨b, hb⟩ | ⟨ln, c, hc⟩ | hc
+  · rw [hb]; intro h'; cases h'
+  · rw [hc]; intro h'; cases h'
+  · rw [hc]; intro h'; cases h'
+
+/-- the weak invariant is preserved by every call that does not report `BufferLimit` -/
+theorem invW_next_preserves {inp : List UInt8} {r : Reader} {fuel : Nat} (h : InvW inp r)
+    (hfuel : inp.length < fuel) (hne : (next fuel r).2 ≠ .err .bufferLimit) :
+    InvW inp (next fuel r).1 := by
+  obtain ⟨rest, h⟩ := h
+  obtain ⟨r', res, new, hn, _, _, hcase⟩ := next_step h hfuel
+  rw [hn] at hne ⊢
+  rcases hcase with hgood | href
+  · exact ⟨_, hgood.2.2.2⟩
+  · exact absurd href.1 hne
+
+/-- with a policy that never refuses there is no `BufferLimit` -/
+theorem no_bufferLimit {inp : List UInt8} {r : Reader} {fuel : Nat} (h : Inv inp r)
+    (hfuel : inp.length < fuel) : (next fuel r).2 ≠ .err .bufferLimit := by
+  obtain ⟨⟨rest, h⟩, hpol⟩ := h
+  obtain ⟨r', res, new, hn, _, _, hcase⟩ := next_step h hfuel
+  rw [hn]
+  rcases hcase with hgood | href
+  · intro hres
+    rcases hgood.1 with ⟨b, hb⟩ | ⟨ln, c, hc⟩
+    · rw [hb] at hres; cases hres
+    · rw [hc] at hres; cases hres
+  · exact absurd hpol href.not_grows
+
 theorem next_preserves_inv {inp : List UInt8} {r : Reader} {fuel : Nat} (h : Inv inp r)
     (hfuel : inp.length < fuel) : Inv inp (next fuel r).1 := by
-  obtain ⟨rest, h⟩ := h
-  obtain ⟨r', res, hn, _, hcase⟩ := next_step h hfuel
+  refine ⟨invW_next_preserves h.1 hfuel (no_bufferLimit h hfuel), ?_⟩
+  obtain ⟨⟨rest, h⟩, hpol⟩ := h
+  obtain ⟨r', res, new, hn, hg, _, _⟩ := next_step h hfuel
   rw [hn]
-  rcases hcase with ⟨_, _, hi⟩ | ⟨_, rest', _, _, hi⟩
-  · exact ⟨[], hi⟩
-  · exact ⟨rest', hi⟩
+  exact polGrows_congr hg.polf hpol
 
-/-- the only results of `next` from a reachable state: `Some(Ok(record))`, `None`, or
+theorem no_panic {inp : List UInt8} {r : Reader} {fuel : Nat} (h : Inv inp r)
+    (hfuel : inp.length < fuel) : (next fuel r).2 ≠ .panic := invW_no_panic h.1 hfuel
+
+theorem fuel_enough {inp : List UInt8} {r : Reader} {fuel : Nat} (h : Inv inp r)
+    (hfuel : inp.length < fuel) : (next fuel r).2 ≠ .fuel := invW_fuel_enough h.1 hfuel
+
+/-- the only results of `next` with a policy that never refuses: `Some(Ok(record))`, `None`, or
 `Some(Err(InvalidStart))` -/
 theorem next_result {inp : List UInt8} {r : Reader} {fuel : Nat} (h : Inv inp r)
     (hfuel : inp.length < fuel) :
     (∃ b, (next fuel r).2 = .ok b) ∨ (∃ ln c, (next fuel r).2 = .err (.invalidStart ln c)) := by
-  obtain ⟨rest, h⟩ := h
-  obtain ⟨r', res, hn, hres, _⟩ := next_step h hfuel
-  rw [hn]
-  exact hres
+  rcases invW_next_result h.1 hfuel with h1 | h1 | h1
+  · exact Or.inl h1
+  · exact Or.inr h1
+  · exact absurd h1 (no_bufferLimit h hfuel)
 
-theorem no_panic {inp : List UInt8} {r : Reader} {fuel : Nat} (h : Inv inp r)
-    (hfuel : inp.length < fuel) : (next fuel r).2 ≠ .panic := by
-  rcases next_result h hfuel with ⟨b, hb⟩ | ⟨ln, c, hc⟩
-  · rw [hb]; intro h'; cases h'
-  · rw [hc]; intro h'; cases h'
+theorem mem_specFrom_record {inp : List UInt8} {s ln : Nat} {o : Obs} (h : o ∈ specFrom inp s ln) :
+    o ≠ .panic ∧ o ≠ .fuel := by
+  unfold specFrom at h
+  simp only [List.mem_map] at h
+  obtain ⟨_, _, rfl⟩ := h
+  exact ⟨(by intro h'; cases h'), (by intro h'; cases h')⟩
 
-theorem fuel_enough {inp : List UInt8} {r : Reader} {fuel : Nat} (h : Inv inp r)
-    (hfuel : inp.length < fuel) : (next fuel r).2 ≠ .fuel := by
-  rcases next_result h hfuel with ⟨b, hb⟩ | ⟨ln, c, hc⟩
-  · rw [hb]; intro h'; cases h'
-  · rw [hc]; intro h'; cases h'
+theorem mem_specObs_ne {inp : List UInt8} {o : Obs} (ho : o ∈ specObs inp) :
+    o ≠ .panic ∧ o ≠ .fuel := by
+  unfold specObs at ho
+  split at ho
+  · simp only [List.mem_map] at ho
+    obtain ⟨_, _, rfl⟩ := ho
+    exact ⟨(by intro h'; cases h'), (by intro h'; cases h')⟩
+  · simp only [List.mem_singleton] at ho
+    subst ho
+    exact ⟨(by intro h'; cases h'), (by intro h'; cases h')⟩
 
-theorem no_bufferLimit {inp : List UInt8} {r : Reader} {fuel : Nat} (h : Inv inp r)
-    (hfuel : inp.length < fuel) : (next fuel r).2 ≠ .err .bufferLimit := by
-  rcases next_result h hfuel with ⟨b, hb⟩ | ⟨ln, c, hc⟩
-  · rw [hb]; intro h'; cases h'
-  · rw [hc]; intro h'; cases h'
+theorem headD_ne {rest : List Obs} (h : ∀ o ∈ rest, o ≠ .panic ∧ o ≠ .fuel) :
+    rest.headD .none ≠ .panic ∧ rest.headD .none ≠ .fuel := by
+  cases rest with
+  | nil => exact ⟨(by intro h'; cases h'), (by intro h'; cases h')⟩
+  | cons o _ => exact h o (by simp)
 
 /-- the views of a returned record never panic either -/
-theorem observe_no_panic {inp : List UInt8} {r : Reader} {fuel : Nat} (h : Inv inp r)
+theorem invW_observe_no_panic {inp : List UInt8} {r : Reader} {fuel : Nat} (h : InvW inp r)
     (hfuel : inp.length < fuel) :
     observe (next fuel r).1 (next fuel r).2 ≠ .panic ∧ observe (next fuel r).1 (next fuel r).2 ≠ .fuel := by
   obtain ⟨rest, h⟩ := h
-  cases h with
-  | finished hw hst =>
-    rw [next_finished fuel r hst]
-    exact ⟨(by intro h'; cases h'), (by intro h'; cases h')⟩
-  | new hfb hst hsq =>
-    obtain ⟨r', res, hn, _, hcase⟩ := next_step (InvR.new r hfb hst hsq) hfuel
-    rw [hn]
-    rcases hcase with ⟨_, hobs, _⟩ | ⟨o, rest', hrest, hobs, _⟩
-    · rw [hobs]; exact ⟨(by intro h'; cases h'), (by intro h'; cases h')⟩
-    · rw [hobs]
-      have ho : o ∈ specObs inp := by rw [hrest]; simp
-      unfold specObs at ho
-      split at ho
-      · simp only [List.mem_map] at ho
-        obtain ⟨_, _, rfl⟩ := ho
-        exact ⟨(by intro h'; cases h'), (by intro h'; cases h')⟩
-      · simp only [List.mem_singleton] at ho
-        subst ho
-        exact ⟨(by intro h'; cases h'), (by intro h'; cases h')⟩
-  | parsing hw he hst hsl hsple hbyte hgt =>
-    obtain ⟨r', res, hn, _, hcase⟩ := next_step (InvR.parsing r hw he hst hsl hsple hbyte hgt) hfuel
-    rw [hn]
-    rcases hcase with ⟨_, hobs, _⟩ | ⟨o, rest', hrest, hobs, _⟩
-    · rw [hobs]; exact ⟨(by intro h'; cases h'), (by intro h'; cases h')⟩
-    · rw [hobs]
-      have ho : o ∈ specFrom inp (r.searchPos + base r) (r.line + r.bp.seqPos.length) := by
-        rw [hrest]; simp
-      unfold specFrom at ho
-      simp only [List.mem_map] at ho
-      obtain ⟨_, _, rfl⟩ := ho
-      exact ⟨(by intro h'; cases h'), (by intro h'; cases h')⟩
+  have hrest : ∀ o ∈ rest, o ≠ .panic ∧ o ≠ .fuel := by
+    cases h with
+    | finished hw hst => intro o ho; cases ho
+    | new hfb hst hsq => intro o ho; exact mem_specObs_ne ho
+    | parsing hw he hst hsl hsple hbyte hgt => intro o ho; exact mem_specFrom_record ho
+  obtain ⟨r', res, new, hn, _, _, hcase⟩ := next_step h hfuel
+  rw [hn]
+  rcases hcase with hgood | href
+  · rw [hgood.2.2.1]; exact headD_ne hrest
+  · rw [href.1]; exact ⟨(by intro h'; cases h'), (by intro h'; cases h')⟩
 
-theorem inv_mkReader (inp : List UInt8) (cap : Nat) (hcap : 3 ≤ cap) (pol : Pol) (hpol : PolOk pol)
-    (script : List ReadEv) (hs : NoFail script) (chunk : Nat) :
-    Inv inp (mkReader inp cap pol script chunk) := by
-  refine ⟨specObs inp, ?_⟩
-  apply InvR.new
-  · refine ⟨⟨⟨rfl, Nat.le_refl _, Nat.zero_le _, ?_, hcap, Nat.zero_le _, hs⟩, hpol⟩, rfl, Or.inl rfl, ?_⟩
-    · simp [baseB, mkReader]
-    · simp [base, baseB, mkReader]
-  · rfl
-  · rfl
+theorem observe_no_panic {inp : List UInt8} {r : Reader} {fuel : Nat} (h : Inv inp r)
+    (hfuel : inp.length < fuel) :
+    observe (next fuel r).1 (next fuel r).2 ≠ .panic ∧ observe (next fuel r).1 (next fuel r).2 ≠ .fuel :=
+  invW_observe_no_panic h.1 hfuel
 
-/-! ## M3: the stream theorem -/
-
-theorem take_append_replicate_succ {α : Type} (l : List α) (x : α) (k : Nat) :
-    (l ++ List.replicate (k + 1) x).take k = (l ++ List.replicate k x).take k := by
-  rw [List.take_append, List.take_append, List.take_replicate, List.take_replicate]
-  congr 2
-  omega
-
-theorem runNexts_spec {inp : List UInt8} : ∀ (k : Nat) (r : Reader) (rest : List Obs),
-    InvR inp r rest → runNexts k r = (rest ++ List.replicate k Obs.none).take k := by
-  intro k
-  induction k with
-  | zero => intro r rest _; rfl
-  | succ k ih =>
-    intro r rest h
-    have hinp : r.br.src.inp = inp := h.win.b.inp_eq
-    obtain ⟨r', res, hn, _, hcase⟩ :=
-      next_step (fuel := opFuel r.br.src.inp.length r.br.src.script.length) h
-        (by rw [hinp]; exact opFuel_gt _ _)
-    rw [runNexts]
-    simp only [hn]
-    rcases hcase with ⟨rfl, hobs, hi⟩ | ⟨o, rest', rfl, hobs, hi⟩
-    · rw [hobs, ih r' [] hi]
-      simp [List.replicate_succ]
-    · rw [hobs, ih r' rest' hi]
-      simp only [List.cons_append, List.take_succ_cons]
-      rw [take_append_replicate_succ]
-
-theorem invR_mkReader (inp : List UInt8) (cap : Nat) (hcap : 3 ≤ cap) (pol : Pol) (hpol : PolOk pol)
-    (script : List ReadEv) (hs : NoFail script) (chunk : Nat) :
+theorem invR_mkReader (inp : List UInt8) (cap : Nat) (hcap : 3 ≤ cap) (pol : Pol)
+    (hpol : PolWfPos pol) (script : List ReadEv) (hs : NoFail script) (chunk : Nat) :
     InvR inp (mkReader inp cap pol script chunk) (specObs inp) := by
   apply InvR.new
   · refine ⟨⟨⟨rfl, Nat.le_refl _, Nat.zero_le _, ?_, hcap, Nat.zero_le _, hs⟩, hpol⟩, rfl, Or.inl rfl, ?_⟩
@@ -380,13 +484,85 @@ theorem invR_mkReader (inp : List UInt8) (cap : Nat) (hcap : 3 ≤ cap) (pol : P
   · rfl
   · rfl
 
-/-- **M3.** `k` consecutive `next()` calls yield exactly S's records in order (or S's
-`InvalidStart` error), followed by end-of-input forever. -/
+theorem invW_mkReader (inp : List UInt8) (cap : Nat) (hcap : 3 ≤ cap) (pol : Pol)
+    (hpol : PolWfPos pol) (script : List ReadEv) (hs : NoFail script) (chunk : Nat) :
+    InvW inp (mkReader inp cap pol script chunk) :=
+  ⟨_, invR_mkReader inp cap hcap pol hpol script hs chunk⟩
+
+theorem inv_mkReader (inp : List UInt8) (cap : Nat) (hcap : 3 ≤ cap) (pol : Pol)
+    (hpol : PolGrows pol) (script : List ReadEv) (hs : NoFail script) (chunk : Nat) :
+    Inv inp (mkReader inp cap pol script chunk) :=
+  ⟨invW_mkReader inp cap hcap pol hpol.wfPos script hs chunk, hpol⟩
+
+/-! ## M3: the stream theorems -/
+
+theorem take_append_replicate_succ {α : Type} (l : List α) (x : α) (k : Nat) :
+    (l ++ List.replicate (k + 1) x).take k = (l ++ List.replicate k x).take k := by
+  rw [List.take_append, List.take_append, List.take_replicate, List.take_replicate]
+  congr 2
+  omega
+
+theorem stream_succ (rest : List Obs) (k : Nat) :
+    (rest ++ List.replicate (k + 1) Obs.none).take (k + 1) =
+      rest.headD .none :: (rest.tail ++ List.replicate k Obs.none).take k := by
+  cases rest with
+  | nil => simp [List.replicate_succ]
+  | cons o rest' =>
+    simp only [List.cons_append, List.take_succ_cons, List.headD_cons, List.tail_cons]
+    rw [take_append_replicate_succ]
+
+theorem runNexts_succ (k : Nat) (r r' : Reader) (res : Res Bool)
+    (h : next (opFuel r.br.src.inp.length r.br.src.script.length) r = (r', res)) :
+    runNexts (k + 1) r = observe r' res :: runNexts k r' := by
+  rw [runNexts]
+  simp only [h]
+
+theorem runNexts_spec {inp : List UInt8} : ∀ (k : Nat) (r : Reader) (rest : List Obs),
+    InvR inp r rest → PolGrows r.pol →
+    runNexts k r = (rest ++ List.replicate k Obs.none).take k := by
+  intro k
+  induction k with
+  | zero => intro r rest _ _; rfl
+  | succ k ih =>
+    intro r rest h hpol
+    have hinp : r.br.src.inp = inp := h.win.b.inp_eq
+    obtain ⟨r', res, new, hn, hg, _, hcase⟩ :=
+      next_step (fuel := opFuel r.br.src.inp.length r.br.src.script.length) h
+        (by rw [hinp]; exact opFuel_gt _ _)
+    rcases hcase with hgood | href
+    · rw [runNexts_succ k r r' res hn, hgood.2.2.1, ih r' _ hgood.2.2.2 (polGrows_congr hg.polf hpol),
+        stream_succ]
+    · exact absurd hpol href.not_grows
+
+/-- **M3** for policies that never refuse a request with a positive capacity: `k` consecutive
+`next()` calls yield exactly S's records in order (or S's `InvalidStart` error), followed by
+end-of-input forever. -/
+theorem fasta_next_stream_polGrows (inp : List UInt8) (cap : Nat) (hcap : 3 ≤ cap) (pol : Pol)
+    (hpol : PolGrows pol) (script : List ReadEv) (hs : NoFail script) (chunk : Nat) (k : Nat) :
+    runNexts k (mkReader inp cap pol script chunk) =
+      (specObs inp ++ List.replicate k Obs.none).take k :=
+  runNexts_spec k _ _ (invR_mkReader inp cap hcap pol hpol.wfPos script hs chunk) hpol
+
+/-- the theorem for the built-in `StdPolicy` -/
+theorem fasta_next_stream_std (inp : List UInt8) (cap : Nat) (hcap : 3 ≤ cap)
+    (script : List ReadEv) (hs : NoFail script) (chunk : Nat) (k : Nat) :
+    runNexts k (mkReader inp cap PolDesc.std.toPol script chunk) =
+      (specObs inp ++ List.replicate k Obs.none).take k :=
+  fasta_next_stream_polGrows inp cap hcap _ polGrows_std script hs chunk k
+
+/-- the theorem for the built-in `DoubleUntil(t)`, `t ≥ 1` -/
+theorem fasta_next_stream_doubleUntil (inp : List UInt8) (cap : Nat) (hcap : 3 ≤ cap) (t : Nat)
+    (ht : 1 ≤ t) (script : List ReadEv) (hs : NoFail script) (chunk : Nat) (k : Nat) :
+    runNexts k (mkReader inp cap (PolDesc.doubleUntil t).toPol script chunk) =
+      (specObs inp ++ List.replicate k Obs.none).take k :=
+  fasta_next_stream_polGrows inp cap hcap _ (polGrows_doubleUntil t ht) script hs chunk k
+
+/-- **M3** as first stated (`PolOk` is stronger than `PolGrows`) -/
 theorem fasta_next_stream (inp : List UInt8) (cap : Nat) (hcap : 3 ≤ cap) (pol : Pol)
     (hpol : PolOk pol) (script : List ReadEv) (hs : NoFail script) (chunk : Nat) (k : Nat) :
     runNexts k (mkReader inp cap pol script chunk) =
       (specObs inp ++ List.replicate k Obs.none).take k :=
-  runNexts_spec k _ _ (invR_mkReader inp cap hcap pol hpol script hs chunk)
+  fasta_next_stream_polGrows inp cap hcap pol (PolOk.grows hpol) script hs chunk k
 
 /-- **M1.** the special case of an ideal source and a buffer that holds the whole input -/
 theorem fasta_next_stream_single_buffer (inp : List UInt8) (cap : Nat) (hcap : 3 ≤ cap)
@@ -394,5 +570,41 @@ theorem fasta_next_stream_single_buffer (inp : List UInt8) (cap : Nat) (hcap : 3
     runNexts k (mkReader inp cap pol [] 0) =
       (specObs inp ++ List.replicate k Obs.none).take k :=
   fasta_next_stream inp cap hcap pol hpol [] noFail_nil 0 k
+
+/-- with a policy that may refuse: up to the first `BufferLimit` the observations are exactly S's
+stream (no panic, no fuel exhaustion), and the only possible deviation is `BufferLimit` -/
+theorem runNexts_refusing {inp : List UInt8} : ∀ (k : Nat) (r : Reader) (rest : List Obs),
+    InvR inp r rest →
+    ∃ j, j ≤ k ∧ (runNexts k r).take j = ((rest ++ List.replicate k Obs.none).take k).take j ∧
+      (j < k → (runNexts k r)[j]? = some (Obs.error .bufferLimit)) := by
+  intro k
+  induction k with
+  | zero => intro r rest _; exact ⟨0, Nat.le_refl _, rfl, fun h => absurd h (Nat.lt_irrefl _)⟩
+  | succ k ih =>
+    intro r rest h
+    have hinp : r.br.src.inp = inp := h.win.b.inp_eq
+    obtain ⟨r', res, new, hn, hg, _, hcase⟩ :=
+      next_step (fuel := opFuel r.br.src.inp.length r.br.src.script.length) h
+        (by rw [hinp]; exact opFuel_gt _ _)
+    rw [runNexts_succ k r r' res hn]
+    rcases hcase with hgood | href
+    · obtain ⟨j, hj, htake, hlim⟩ := ih r' _ hgood.2.2.2
+      refine ⟨j + 1, by omega, ?_, ?_⟩
+      · rw [stream_succ, List.take_succ_cons, List.take_succ_cons, htake, hgood.2.2.1]
+      · intro hlt
+        rw [List.getElem?_cons_succ]
+        exact hlim (by omega)
+    · refine ⟨0, Nat.zero_le _, rfl, fun _ => ?_⟩
+      rw [href.1]
+      rfl
+
+/-- **C06/C09.** policies that may refuse but answer more than they are passed when they answer -/
+theorem fasta_next_stream_refusing (inp : List UInt8) (cap : Nat) (hcap : 3 ≤ cap) (pol : Pol)
+    (hpol : PolWfPos pol) (script : List ReadEv) (hs : NoFail script) (chunk : Nat) (k : Nat) :
+    ∃ j, j ≤ k ∧
+      (runNexts k (mkReader inp cap pol script chunk)).take j =
+        ((specObs inp ++ List.replicate k Obs.none).take k).take j ∧
+      (j < k → (runNexts k (mkReader inp cap pol script chunk))[j]? = some (Obs.error .bufferLimit)) :=
+  runNexts_refusing k _ _ (invR_mkReader inp cap hcap pol hpol script hs chunk)
 
 end SeqIo.Fasta
